@@ -26,11 +26,13 @@ type zzDConn struct {
 	ip     byte
 }
 
-func (c *zzDConn) Read(b []byte) (int, error)         { return 0, io.EOF }
-func (c *zzDConn) Write(b []byte) (int, error)        { return len(b), nil }
-func (c *zzDConn) Close() error                       { return nil }
-func (c *zzDConn) LocalAddr() net.Addr                { return &net.TCPAddr{IP: net.IPv4(10, 0, 0, 1), Port: 2375} }
-func (c *zzDConn) RemoteAddr() net.Addr               { return &net.TCPAddr{IP: net.IPv4(10, 9, 9, c.ip), Port: 40000} }
+func (c *zzDConn) Read(b []byte) (int, error)  { return 0, io.EOF }
+func (c *zzDConn) Write(b []byte) (int, error) { return len(b), nil }
+func (c *zzDConn) Close() error                { return nil }
+func (c *zzDConn) LocalAddr() net.Addr         { return &net.TCPAddr{IP: net.IPv4(10, 0, 0, 1), Port: 2375} }
+func (c *zzDConn) RemoteAddr() net.Addr {
+	return &net.TCPAddr{IP: net.IPv4(10, 9, 9, c.ip), Port: 40000}
+}
 func (c *zzDConn) SetDeadline(t time.Time) error      { return nil }
 func (c *zzDConn) SetReadDeadline(t time.Time) error  { return nil }
 func (c *zzDConn) SetWriteDeadline(t time.Time) error { return nil }
